@@ -39,7 +39,7 @@ type ctx struct {
 }
 
 func main() {
-	mode := flag.String("mode", "sqlite", "sqlite|mysql|mysql-my57|mysql-my80|mysql-maria|mysql-history|postgres|postgres-ns")
+	mode := flag.String("mode", "sqlite", "sqlite|mysql|mysql-my57|mysql-my80|mysql-maria|mysql-history|postgres|postgres-ns|postgres-history")
 	tier := flag.String("tier", "quick", "quick|thorough")
 	outDir := flag.String("out", "", "output directory")
 	flag.Parse()
@@ -53,8 +53,8 @@ func main() {
 		c.differ, c.tie = scopedPGDiffer("public"), true
 		*mode = "postgres"
 	}
-	if *mode == "mysql-history" {
-		c.history(*tier == "thorough")
+	if *mode == "mysql-history" || *mode == "postgres-history" {
+		c.history(strings.TrimSuffix(*mode, "-history"), *tier == "thorough")
 		c.w.Close()
 		return
 	}
